@@ -436,7 +436,7 @@ pub fn run_c05(tier: Tier) -> ! {
         };
         for (ts, hsa, members0) in cases {
             for g in [1u8, 2] {
-                let cfg = RCfg { ts, hsa, gap_factor: g, slot_bits: 100, ttr: None, period_div: 8, members0: members0.clone(), scripts: vec![], multi: false, mon: RMon::C05, max_visits: if hsa > 100 { 140 } else { tier.pick(14, 24) }, join_budget: tier.pick(1, 2) };
+                let cfg = RCfg { ts, hsa, gap_factor: g, slot_bits: 100, ttr: None, period_div: 8, members0: members0.clone(), scripts: vec![], multi: false, mon: RMon::C05, max_visits: if hsa > 100 { 140 } else { tier.pick(14, 24) }, join_budget: tier.pick(1, 2), origin_us: 0 };
                 rcfgs.push((format!("reactive TS{ts} HSA{hsa} G{g} members{members0:?}"), cfg, 60, tier.pick(120.0, 3000.0), tier.pick(60_000, 600_000)));
             }
         }
